@@ -15,6 +15,23 @@ impl      builds both trees with graphtage.json.build_tree, diffs them (TreeNode
 model     GtModel.Render.render over the L2 script computed by GtModel.edits from the recorded solver answers.
 monitor   C06 on the recovered output alone: both projections parse (after separator repair) to the two documents,
           and there are no marks iff the documents are equal as data.
+          The projections are judged by json.loads alone (a raw DEL or raw non-ASCII character in the output is legal JSON and
+          is accepted; a raw control character is not and makes the projection unparsable).
+
+PLAIN-TEXT PASS (the default of `graphtage a b > file`, `--no-color`): the same diff is also printed with `ansi_color=False`, where
+the marks are IN-BAND text: a removed item is `~~item~~`, an inserted one `++item++` (Remove.print / Insert.print), a changed or
+replaced value is `old -> new` with no delimiters (Match.print / Replace.print), a changed string carries `~~` / `++` toggles between
+its quotes (StringFormatter.write_char).  `parse_plain` reads that text with the grammar
+      item   := "~~" thing "~~" | "++" thing "++" | thing [ "->" thing ]
+      thing  := value                      in a list / at the root
+              | key [ "->" key ] ":" item  in an object (key: a string literal, possibly with toggles)
+      value  := "[" item,* "]" | "{" item,* "}" | string literal with toggles | number / true / false / null
+and returns both documents; they must be the two inputs, and there must be a mark iff the inputs differ.  DOMAIN of this pass (the
+in-band format is inherently ambiguous outside it, and the monitor says nothing there): no string and no key of either document contains
+`~` or `+` - one such character next to a toggle (`"a` + `++` + `+` + `++` + `"`) cannot be told from the toggle, let alone a literal
+`~~x~~`; ` -> ` inside a string is harmless (the arrow is only read OUTSIDE string literals, where json.dumps never writes `->`), so
+strings with arrows, quotes, brackets, commas are inside the domain.  Everything else (all shapes: roots, lists, objects, key edits,
+replacements of containers, nested edits) is decided.
 """
 import io, json
 
@@ -256,8 +273,8 @@ def recover(raw):
             else:
                 plus = True
             i += 1
-        if ord(c) > 126 or (ord(c) < 32 and c != "\n"):
-            raise Unrecoverable(f"unexpected raw character U+{ord(c):04X}")
+        # (raw DEL / non-ASCII characters are legal JSON: whether the projections still read back is decided by json.loads in the
+        # monitor, not by a character class here; the correspondence with the model, which escapes them, is a separate question)
         rem = struck or bg == "red"
         ins = plus or bg == "green"
         if (rem and ins) or bg == "other":
@@ -334,6 +351,12 @@ def impl(case):
     except Unrecoverable as e:
         obs["layout_same"] = False
     obs["multiline"] = "\n" in raw or "\n" in raw2
+    # the in-band (plain text) rendering of the same diff, in both layouts
+    try:
+        obs["plain"] = [_print(diff, case.get("jl", False), case.get("jd", False), ansi=False),
+                        _print(diff, not case.get("jl", False), not case.get("jd", False), ansi=False)]
+    except Exception as e:  # noqa
+        obs["plain_error"] = type(e).__name__ + ": " + str(e)[:200]
     # a fresh diff of fresh trees prints the same (printing has no hidden state)
     d2 = gj.build_tree(case["f"], o).diff(gj.build_tree(case["t"], o))
     obs["repeat_same"] = _print(d2, case.get("jl", False), case.get("jd", False)) == raw
@@ -424,6 +447,226 @@ def parse_projection(text):
     return json.loads(repair(text), object_pairs_hook=_pairs)
 
 
+# ---- the plain-text (in-band) rendering
+
+class PlainError(Exception):
+    pass
+
+
+def plain_domain(x):
+    """no string and no key contains `~` or `+` (see the module docstring)"""
+    if isinstance(x, str):
+        return "~" not in x and "+" not in x
+    if isinstance(x, list):
+        return all(plain_domain(c) for c in x)
+    if isinstance(x, dict):
+        return all(plain_domain(k) and plain_domain(v) for k, v in x.items())
+    return True
+
+
+def plain_tokens(text):
+    """tokens of the in-band rendering: ("p", ch) punctuation, ("rm",) `~~`, ("ins",) `++`, ("arrow",) `->`,
+    ("str", first, second, marked) a string literal with its toggles resolved (JSON-escaped bodies), ("lit", text)"""
+    toks = []
+    i, n = 0, len(text)
+    while i < n:
+        c = text[i]
+        if c in " \n\t\r":
+            i += 1
+        elif c in PUNCT:
+            toks.append(("p", c))
+            i += 1
+        elif text.startswith("~~", i):
+            toks.append(("rm",))
+            i += 2
+        elif text.startswith("++", i):
+            toks.append(("ins",))
+            i += 2
+        elif text.startswith("->", i):
+            toks.append(("arrow",))
+            i += 2
+        elif c == '"':
+            i += 1
+            first, second = [], []
+            rem = ins = marked = False
+            while True:
+                if i >= n:
+                    raise PlainError("unterminated string literal")
+                if text.startswith("~~", i):
+                    if ins:
+                        raise PlainError("`~~` inside an inserted run of a string")
+                    rem, marked = not rem, True
+                    i += 2
+                    continue
+                if text.startswith("++", i):
+                    if rem:
+                        raise PlainError("`++` inside a removed run of a string")
+                    ins, marked = not ins, True
+                    i += 2
+                    continue
+                ch = text[i]
+                if ch == '"':
+                    if rem or ins:
+                        raise PlainError("string literal ends inside a " + ("removed" if rem else "inserted") + " run (closing delimiter missing)")
+                    i += 1
+                    break
+                if ch == "\\":
+                    if i + 1 >= n:
+                        raise PlainError("dangling backslash")
+                    ch = text[i:i + 2]
+                    i += 2
+                else:
+                    i += 1
+                if not ins:
+                    first.append(ch)
+                if not rem:
+                    second.append(ch)
+            toks.append(("str", "".join(first), "".join(second), marked))
+        else:
+            j = i
+            while j < n and text[j] not in PUNCT and text[j] not in ' "\n\t\r' and not (text.startswith("~~", j) or text.startswith("++", j) or text.startswith("->", j)):
+                j += 1
+            if j == i:
+                raise PlainError(f"unexpected character {c!r}")
+            toks.append(("lit", text[i:j]))
+            i = j
+    return toks
+
+
+def parse_plain(text):
+    """(first document, second document, any mark present) read from the in-band rendering; PlainError / Dup / ValueError if the text does
+    not follow the grammar of the module docstring"""
+    toks = plain_tokens(text)
+    pos = [0]
+    marks = [False]
+
+    def peek():
+        return toks[pos[0]] if pos[0] < len(toks) else ("eof",)
+
+    def take(kind=None, ch=None):
+        t = peek()
+        if (kind is not None and t[0] != kind) or (ch is not None and (len(t) < 2 or t[1] != ch)):
+            raise PlainError(f"expected {ch or kind}, found {t[:2]} at token {pos[0]}")
+        pos[0] += 1
+        return t
+
+    def string(t):
+        if t[3]:
+            marks[0] = True
+        return json.loads('"' + t[1] + '"'), json.loads('"' + t[2] + '"')
+
+    def value():
+        t = peek()
+        if t[0] == "str":
+            take()
+            return string(t)
+        if t[0] == "lit":
+            take()
+            v = json.loads(t[1])
+            return v, v
+        if t == ("p", "["):
+            take()
+            a, b = [], []
+            for fp, fv, sp, sv in items(False, "]"):
+                if fp:
+                    a.append(fv)
+                if sp:
+                    b.append(sv)
+            return a, b
+        if t == ("p", "{"):
+            take()
+            a, b = {}, {}
+            for fp, fv, sp, sv in items(True, "}"):
+                for present, (k, v), d, side in ((fp, fv or (None, None), a, "first"), (sp, sv or (None, None), b, "second")):
+                    if present:
+                        if k in d:
+                            raise Dup((side, k))
+                        d[k] = v
+            return a, b
+        raise PlainError(f"a value cannot start with {t[:2]} at token {pos[0]}")
+
+    def changed_value():
+        a = value()
+        if peek()[0] == "arrow":
+            take()
+            marks[0] = True
+            b = value()
+            return a[0], b[1]
+        return a
+
+    def thing(in_dict):
+        if not in_dict:
+            return changed_value()
+        t = take("str")
+        k1, k2 = string(t)
+        if peek()[0] == "arrow":
+            take()
+            marks[0] = True
+            k2 = string(take("str"))[1]
+        take("p", ":")
+        v1, v2 = changed_value()
+        return (k1, v1), (k2, v2)
+
+    def item(in_dict):
+        t = peek()
+        if t[0] in ("rm", "ins"):
+            take()
+            marks[0] = True
+            a, b = thing(in_dict)
+            take(t[0])          # the closing delimiter
+            return (True, a, False, None) if t[0] == "rm" else (False, None, True, b)
+        a, b = thing(in_dict)
+        return (True, a, True, b)
+
+    def items(in_dict, close):
+        out = []
+        if peek() == ("p", close):
+            take()
+            return out
+        while True:
+            out.append(item(in_dict))
+            t = take("p")
+            if t[1] == close:
+                return out
+            if t[1] != ",":
+                raise PlainError(f"expected , or {close}, found {t[1]!r}")
+
+    first, second = changed_value()
+    if peek()[0] != "eof":
+        raise PlainError(f"text after the document: {peek()[:2]} at token {pos[0]}")
+    return first, second, marks[0]
+
+
+def monitor_plain(case, obs):
+    P = "C06"
+    if not (plain_domain(case["f"]) and plain_domain(case["t"])):
+        return []
+    if "plain_error" in obs:
+        return [{"prop": P, "key": "plain:print-raises", "what": "printing the diff without colour raised " + obs["plain_error"]}]
+    hits = []
+    de = S.data_eq(case["f"], case["t"])
+    for which, text in zip(("", "other-layout:"), obs.get("plain") or []):
+        try:
+            first, second, has_marks = parse_plain(text)
+        except Dup as e:
+            hits.append({"prop": P, "key": f"plain:{e.args[0][0]}:duplicate-key", "what": f"plain-text rendering: the {e.args[0][0]} document read back has the key {e.args[0][1]!r} twice: {text[:300]!r}"})
+            continue
+        except (PlainError, ValueError) as e:
+            hits.append({"prop": P, "key": "plain:unparsable", "what": f"plain-text rendering ({which or 'requested layout'}) cannot be read back: {e}: {text[:300]!r}"})
+            continue
+        for side, back, doc in (("first", first, case["f"]), ("second", second, case["t"])):
+            d = S.data_eq(back, doc)
+            if d is False or (d is None and back != doc):
+                hits.append({"prop": P, "key": f"plain:{side}:different",
+                             "what": f"plain-text rendering: the {side} document read back is {json.dumps(back)[:200]}, expected {json.dumps(doc)[:200]}; text {text[:300]!r}"})
+        if de is not None:
+            if de and has_marks:
+                hits.append({"prop": P, "key": "plain:marks-on-equal", "what": f"the documents are equal as data but the plain-text rendering carries marks: {text[:300]!r}"})
+            if not de and not has_marks:
+                hits.append({"prop": P, "key": "plain:no-marks-on-different", "what": f"the documents differ but the plain-text rendering carries no mark: {text[:300]!r}"})
+    return hits
+
+
 def monitor(case, obs):
     P = "C06"
     if not isinstance(obs, dict):
@@ -460,7 +703,7 @@ def monitor(case, obs):
         hits.append({"prop": P, "key": "layout-changes-content", "what": "join_lists/join_dict_items change more than whitespace"})
     if obs.get("repeat_same") is False:
         hits.append({"prop": P, "key": "render-not-repeatable", "what": "rendering a fresh diff of the same documents gives a different text"})
-    return hits
+    return hits + monitor_plain(case, obs)
 
 
 def classify(case, obs):
@@ -486,7 +729,8 @@ def classify(case, obs):
     nonascii = any(ord(ch) > 126 or ord(ch) < 32 for ch in json.dumps([case["f"], case["t"]], ensure_ascii=False))
     n = len(obs["c"])
     size = "s" if n < 20 else "m" if n < 120 else "l"
-    return f"{tag}|{comp}|marks={mk}|{'hostile' if nonascii or chr(92) in json.dumps([case['f'], case['t']]) else 'tame'}|{size}"
+    pl = "plain-text:checked" if plain_domain(case["f"]) and plain_domain(case["t"]) and obs.get("plain") else "plain-text:outside-domain"
+    return f"{tag}|{comp}|marks={mk}|{'hostile' if nonascii or chr(92) in json.dumps([case['f'], case['t']]) else 'tame'}|{size}|{pl}"
 
 
 def nontrivial(case, obs):
